@@ -28,12 +28,17 @@ MAX_REPORTS = 4      # replay files written per predicate for unexplained failur
 def run(ctx):
     quick = ctx.quick()
     nsim = int(os.environ.get("VERIF_C05_NSIM") or (300 if quick else 4000))
-    with concurrent.futures.ThreadPoolExecutor(3) as ex:
+    with concurrent.futures.ThreadPoolExecutor(4) as ex:
         f_mc = ex.submit(model_check, ctx, SPEC, "MC_DocUpdate", "MC_DocUpdate.cfg" if quick else "MC_DocUpdate_thorough.cfg", 5400)
         f_beh = ex.submit(gen_behaviours, ctx, "Beh_DocUpdate.cfg", None, "Beh")
-        f_sim = ex.submit(gen_behaviours, ctx, "Sim_DocUpdate.cfg", nsim, "Sim")
-        mc, beh_all, beh_sim = f_mc.result(), f_beh.result(), f_sim.result()
+        # two mixes: SimNext (one successor per action kind: requests start late, parents created by other writers) and the
+        # plain Next (every writer begins early: highest contention on the CAS window)
+        f_sim = ex.submit(gen_behaviours, ctx, "Sim_DocUpdate.cfg", nsim // 2, "Sim")
+        f_sim2 = ex.submit(gen_behaviours, ctx, "Sim_DocUpdate_burst.cfg", nsim - nsim // 2, "SimBurst")
+        mc, beh_all, beh_sim = f_mc.result(), f_beh.result(), f_sim.result() + f_sim2.result()
+    ctx.cov["behaviour_action_mix"] = action_mix(beh_sim)
     ctx.cov["exhaustive"] = True
+    final_coverage(ctx, mc)
     wit = deviation_witnesses(ctx, mc, per_class=25 if quick else 300)
     behs, seen = [], set()
     for src, lst in (("all2w", beh_all), ("sim", beh_sim), ("witness", wit)):
@@ -73,6 +78,41 @@ def gen_behaviours(ctx, cfg, num, tag):
         raise Inconclusive("no behaviours exported by %s\n%s" % (cfg, r.out[-800:]))
     log("  TLC %-28s %-22s exported %d distinct behaviours  %.1fs" % ("MC_DocUpdate", cfg, len(res), r.wall))
     return res
+
+
+def final_coverage(ctx, mc):
+    """vacuity guard on the LAST coverage block (core scans the periodic blocks too, where late actions are still 0)."""
+    import re
+    last = {}
+    for line in mc.out.splitlines():
+        m = re.match(r"^<(\w+) line .* of module DocUpdate>: (\d+):(\d+)$", line.strip())
+        if m:
+            last[m.group(1)] = int(m.group(3))
+    if last:
+        ctx.notes[:] = [n for n in ctx.notes if not n.startswith("zero-coverage actions in MC_DocUpdate")]
+        ctx.cov["action_coverage"] = last
+        zero = sorted(a for a, n in last.items() if n == 0 and a != "Init")
+        if zero:
+            raise Inconclusive("actions never taken in the exhaustive run: %s" % zero)
+
+
+def action_mix(behs):
+    """what the simulated behaviours contain (checked once by eye, recorded in the evidence)."""
+    h = {"behaviours": len(behs), "begin_after_a_commit": 0, "parent_is_another_writers_revision": 0, "lost_cas": 0, "actions": {}}
+    for b in behs:
+        committed = late = wp = lost = False
+        for st in b["steps"]:
+            h["actions"][st["a"]] = h["actions"].get(st["a"], 0) + 1
+            if st["a"] == "Begin":
+                late = late or committed
+                wp = wp or st["p"] > 10
+            if st["a"] == "Cas":
+                committed = committed or st["e"] == "committed"
+                lost = lost or st["e"] != "committed"
+        h["begin_after_a_commit"] += late
+        h["parent_is_another_writers_revision"] += wp
+        h["lost_cas"] += lost
+    return h
 
 
 def deviation_witnesses(ctx, mc, per_class):
